@@ -4,7 +4,7 @@ import vlib
 
 TARGETS = ["Base/Num.vo", "Base/Corr.vo", "C16/Model.vo", "C16/Spec.vo", "C16/ProofsMax.vo", "C16/ProofsEM.vo",
            "C16/ProofsModel.vo", "C16/Corr.vo", "C16/ProofsCorr.vo", "C16/ModelHmm.vo", "C16/ProofsBW.vo",
-           "C16/ProofsBW2.vo", "C16/ProofsBW3.vo", "C16/ProofsClamp.vo", "C16/Corr2.vo", "C16/ModelVec.vo", "C16/Corr3.vo", "C16/ProofsCorr3.vo", "C16/ProofsVec.vo",
+           "C16/ProofsBW2.vo", "C16/ProofsBW3.vo", "C16/ProofsClamp.vo", "C16/Corr2.vo", "C16/ModelVec.vo", "C16/Corr3.vo", "C16/ProofsCorr3.vo", "C16/ProofsVec.vo", "C16/ProofsDet.vo",
            "C16/SpecTest.vo", "C16/Props.vo"]
 PROPS = ["C16/Props.v"]
 CORPUS = os.path.join(vlib.ROOT, "corpus/C16/corpus.jsonl")
@@ -22,9 +22,13 @@ PARTIAL = ("Theorems are over exact real arithmetic (Coq Reals) about the hand-w
            "error bound for + * / on non-negative numbers). Baum-Welch: no start / final states, categorical emissions in the tie; "
            "ascent is proved for emission M-steps satisfying the stated component hypothesis. Vector normal: the mean is proved "
            "optimal for every dimension and every covariance, the covariance for dimension 1 and for diagonal covariances of every "
-           "dimension; the full-matrix statement is vector_normal_full_covariance_maximiser_partial (reduced to ln det(L S) <= tr(L S) - d, "
-           "not proved for general d) and is covered per case by the certified perturbation check (scalings and shears at Go's returned "
-           "parameters, skipped for ill-conditioned data and, because of finding F-VNORMAL-CLAMP, when the SigmaMin clamp is active in "
+           "dimension; the full covariance for EVERY dimension and every data set with a positive definite moment matrix "
+           "(vector_normal_full_covariance_is_maximiser[_over_spd_precisions]: ln det L + ln det S <= tr(L S) - d through triangular factors, "
+           "Cholesky existence by Schur-complement induction) with ln det READ OFF a triangular factor (sum 2 ln T_ii; no Leibniz determinant, "
+           "no multiplicativity of det formalised) and singular moment matrices excluded; the SigmaMin clamp is proved to return the "
+           "(constrained) maximiser when it is inactive, and for a diagonal moment matrix only against diagonal competitors (finding "
+           "F-VNORMAL-CLAMP otherwise); per case the certified perturbation check remains (scalings and shears at Go's returned "
+           "parameters, skipped for ill-conditioned data and, because of F-VNORMAL-CLAMP, when the SigmaMin clamp is active in "
            "dimension >= 2); the link between the list model vn_est at R and the index-form vmean / vcov is only shown on the witness of "
            "the _refuted theorem; the Cholesky-based guards of the distribution constructor are not modelled (error outcomes are compared "
            "with an exact positive-definiteness / determinant-underflow test); NormalSteinEstimator is a shrinkage estimator, not a "
